@@ -648,6 +648,8 @@ def run_getitem(ctx, case):
       ctx.violation("table-getitem/value", case, idx=idx, got=got, want=want)
       return True
     ctx.count("getitem:checked")
+    if idx < 0:
+      ctx.count("getitem:negative-index")
   return True
 
 
@@ -1147,7 +1149,11 @@ def gen_getitem(rng):
   idxs = []
   for _ in range(rng.randint(1, 12)):
     c = rng.random()
-    if c < 0.3:
+    if c < 0.12:          # cyclic: negative positions as well
+      idxs.append(rng.choice([-rng.randint(1, 3 * size),
+                              -round(rng.uniform(0, 3 * size), 3),
+                              -(rng.randint(0, 3 * size) + 0.5)]))
+    elif c < 0.3:
       idxs.append(rng.randint(0, 3 * size))
     elif c < 0.5:
       idxs.append(float(rng.randint(0, 3 * size)))
@@ -1345,6 +1351,7 @@ def finish(ctx):
   ctx.need("table:default_sin", 3)
   ctx.need("table:default_saw", 3)
   ctx.need("getitem:checked", 50)
+  ctx.need("getitem:negative-index", 20)
   for k in ("NN", "SN", "NS", "SS"):
     ctx.need("sin:freq,phase=" + k, 4)
   ctx.need("sin:freq>pi", 10)
